@@ -7,7 +7,8 @@ import numpy as np
 from . import c05 as base
 
 RULE = ("K on generated tiny scenes (3-6 cells per axis, periodic/PEC/PMC/PML faces, dipole/plane source, field + energy + "
-        "accumulating phasor detectors with random on/off switches, binary64): (a) `custom_fdtd_forward(start, stop)` for ~20 (start, stop) "
+        "accumulating phasor detectors with random on/off switches; scene 0 always has a dispersive (Lorentz/Drude ADE) block "
+        "inside PML walls so that the FieldState holds E, H, psi_E, psi_H, dispersive_P_curr and dispersive_P_prev; binary64): (a) `custom_fdtd_forward(start, stop)` for ~20 (start, stop) "
         "pairs per scene incl. start=stop, start>stop, stop>T (loop bound), traced and Python-int arguments, "
         "reset_container on/off: final step and the traced sequence of step indices are compared exactly with the model; "
         "(b) random histories 0=a_0<=a_1<=...<=a_n=T of consecutive partial runs (1-5 split points, repeated points "
@@ -16,7 +17,8 @@ RULE = ("K on generated tiny scenes (3-6 cells per axis, periodic/PEC/PMC/PML fa
         "runs on ONE reused container (each full run must reproduce the reference) incl. starts from dirty containers and "
         "from the arrays returned by a previous run; (d) `ArrayContainer.reset` with all flag combinations on containers "
         "with random, negative, +-inf and NaN entries (and a recording state): every output value is compared bit-for-bit "
-        "with the model's zeros, plus the predicate 'every field / detector / (flagged) recording entry is +0.0 bit-exactly "
+        "with the model's zeros (the container is enumerated generically: every pytree leaf with its path, no name list; the scene "
+        "is dispersive + PML), plus the predicate 'EVERY field-state leaf is all +0.0 (reported per leaf), every detector / (flagged) recording entry is +0.0 bit-exactly "
         "- a surviving NaN, inf or -0.0 is a violation -, materials bit-identical, shapes kept, reset idempotent'; the reuse "
         "sequences of (c) include `spoil` (the NaN/inf container a diverged run leaves behind) followed by a full run that "
         "must reproduce the reference; (e) always: histories of 4+ `custom_fdtd_forward` calls mixing reset_container True/False "
@@ -133,27 +135,27 @@ def gen_windows(rng, T, n):
 
 
 # ------------------------------------------------------------------------------------ reset
-MAT_ATTRS = ["inv_permittivities", "inv_permeabilities", "electric_conductivity", "magnetic_conductivity",
-             "initial_inv_permittivities"]
+def _flat(leaves):
+    leaves = [np.asarray(x) for x in leaves if hasattr(x, "shape") or isinstance(x, (int, float))]
+    leaves = [(np.stack([x.real, x.imag], axis=-1) if np.iscomplexobj(x) else x).astype(np.float64).ravel() for x in leaves]
+    return np.concatenate(leaves) if leaves else np.zeros(0)
 
 
 def flat_container(j, arr):
-    """(fields, det, recording or None, mat) as flat float64 numpy arrays, in pytree-leaf order"""
-    jax = j["jax"]
+    """(fields, det, recording or None, mat) as flat float64 numpy arrays.  Generic over the pytree: every leaf of the
+    container is enumerated with its path (base.container_leaves) and assigned to its group - no attribute name list."""
+    groups = {"fields": [], "det": [], "rec": [], "mat": []}
+    for g, _, leaf in base.container_leaves(arr):
+        groups[g].append(leaf)
+    rec = _flat(groups["rec"]) if arr.recording_state is not None else None
+    if rec is not None and rec.size == 0:
+        rec = None
+    return _flat(groups["fields"]), _flat(groups["det"]), rec, _flat(groups["mat"])
 
-    def cat(leaves):
-        leaves = [np.asarray(x) for x in leaves if hasattr(x, "shape")]
-        leaves = [(np.stack([x.real, x.imag], axis=-1) if np.iscomplexobj(x) else x).astype(np.float64).ravel() for x in leaves]
-        return np.concatenate(leaves) if leaves else np.zeros(0)
 
-    fields = cat(jax.tree.leaves(arr.fields))
-    det = cat(jax.tree.leaves(arr.detector_states))
-    rec = None
-    if arr.recording_state is not None:
-        r = cat(jax.tree.leaves(arr.recording_state))
-        rec = r if r.size else None
-    mat = cat([x for a in MAT_ATTRS for x in jax.tree.leaves(getattr(arr, a, None))])
-    return fields, det, rec, mat
+def field_leaves(arr):
+    """every FieldState leaf with its key: E, H, psi_E#k, psi_H#k, dispersive_P_curr, dispersive_P_prev, ..."""
+    return [(key, leaf) for g, key, leaf in base.container_leaves(arr) if g == "fields" and hasattr(leaf, "shape")]
 
 
 def canon_bits(x):
@@ -209,9 +211,13 @@ def reset_fails(j, arr, rd=True, rr=False):
         return (f"{bad.size} entries are not +0.0 ({int(np.sum(np.isnan(v)))} NaN, {int(np.sum(np.isinf(v)))} inf, "
                 f"{int(np.sum((v == 0) & np.signbit(v)))} -0.0, {int(np.sum(np.isfinite(v) & (v != 0)))} non-zero)")
 
-    d = not_plus_zero(f1)
-    if d:
-        return "after reset the field arrays are not zeroed: " + d
+    keys0, keys1 = [k for k, _ in field_leaves(arr)], [k for k, _ in field_leaves(r)]
+    if keys0 != keys1:
+        return f"reset changed the set of field-state leaves: {keys0} -> {keys1}"
+    for key, leaf in field_leaves(r):          # EVERY field-state leaf must be all +0.0 after reset
+        d = not_plus_zero(_flat([leaf]))
+        if d:
+            return f"after reset the field-state leaf `{key}` is not zeroed: " + d
     if canon_bits(m1) != canon_bits(m0):
         return "reset changed material arrays"
     if rd:
@@ -358,20 +364,26 @@ GRADS = [{"method": "reversible", "c": 0}, {"method": "checkpointed", "n": 2}, {
 def k_rerun(ctx):
     """(f) lossy scenes: rerun from returned arrays under every gradient strategy"""
     T = ctx.rng.randint(5, 8)
-    for li, lossy in enumerate(({"sigma_m": float(ctx.rng.choice([1e9, 3e9]))}, {"sigma_e": float(ctx.rng.choice([1e5, 3e4]))})):
-        sc = {"shape": [ctx.rng.randint(3, 5) for _ in range(3)], "T": T, "bound": ctx.rng.choice(["periodic", "pec"]),
+    variants = ({"sigma_m": float(ctx.rng.choice([1e9, 3e9]))}, {"sigma_e": float(ctx.rng.choice([1e5, 3e4]))},
+                {"disp": ctx.rng.choice(DISPERSIONS), "blk_shape": [3, 3, 3], "bound": "pml"})
+    for li, lossy in enumerate(variants):
+        sc = {"shape": [ctx.rng.randint(5 if "disp" in lossy else 3, 5) for _ in range(3)], "T": T,
+              "bound": ctx.rng.choice(["periodic", "pec"]),
               "src": "dipole", "pol": ctx.rng.randint(0, 2), "src_switch": None,
               "dets": [{"kind": "field", "switch": base.gen_switch(ctx.rng, T)}, {"kind": "phasor", "switch": None}],
               "spp": 4.0, "eps": ctx.rng.choice([None, 2.25]), **lossy}
-        grads = GRADS if (li == 0 or ctx.thorough) else GRADS[:1]
+        if "disp" in lossy:          # reversible_fdtd rejects dispersive scenes (NotImplementedError)
+            grads = GRADS[1:] if ctx.thorough else GRADS[2:]
+        else:
+            grads = GRADS if (li == 0 or ctx.thorough) else GRADS[:1]
         for gi, g in enumerate(grads):
             if g["method"] == "reversible" and ctx.rng.chance(0.5):
                 g = {"method": "reversible", "c": ctx.rng.randint(1, min(2, T - 1))}
-            modes = ["run", "cf", "split"] if ctx.thorough else [["run", "cf", "split"][(gi + li) % 3]] + (["run"] if (gi + li) % 3 else [])
+            modes = ["run", "cf", "split"] if (ctx.thorough or "disp" in lossy) else [["run", "cf", "split"][(gi + li) % 3]] + (["run"] if (gi + li) % 3 else [])
             for mode in modes:
                 case = {"kind": "rerun", "scene": sc, "grad": g, "mode": mode}
                 ctx.case(nontrivial=("rerun", li, json.dumps(g, sort_keys=True), mode), op="rerun-from-output", method=g["method"],
-                         mode=mode, conductivity="magnetic" if "sigma_m" in lossy else "electric")
+                         mode=mode, conductivity="magnetic" if "sigma_m" in lossy else "electric" if "sigma_e" in lossy else "dispersive")
                 ctx.impl_property_evals += 1
                 d = rerun_fails(sc, g, mode, ctx=ctx, case=case)
                 if d:
@@ -382,8 +394,8 @@ def k_rerun(ctx):
 def history_fails(S, pts, start_seed=None, ref=None, tol=1e-9):
     j = S.j
     arr = S.a if start_seed is None else base.dirty(j, S.a, int(start_seed))
-    if ref is None:
-        ref = snap(S.partial(arr, 0, S.T, reset=True)[0])
+    if ref is None:          # the reference is always the single run from the FRESH placement
+        ref = snap(S.partial(S.a, 0, S.T, reset=True)[0])
     st, _ = S.history(arr, pts)
     t, s1 = snap(st)
     if t != pts[-1]:
@@ -547,12 +559,45 @@ def k_reset(ctx, sc, grad, idx):
         case = {"kind": "reset", "scene": sc, "grad": grad, "seed": seed, "rd": rd, "rr": rr, "specials": specials}
         ctx.case(sample={"op": "reset", **case, "n_values": len(vals)} if i == 0 and idx == 0 else None,
                  nontrivial=("reset", idx, rd, rr, specials), op="reset", flags=f"det={rd},rec={rr}",
-                 recording="yes" if r0 is not None else "no", specials=specials)
+                 recording="yes" if r0 is not None else "no", specials=specials,
+                 fieldstate_leaves=",".join(sorted({k.split("#")[0] for k, _ in field_leaves(arr)})))
         ctx.expect_equal("reset", case, impl, rep)
+        # component-wise: the six FieldState components of the model (E, H, psi_E, psi_H, P_curr, P_prev) vs the leaves of the
+        # implementation grouped by the FieldState attribute they sit under (any other attribute would be a mismatch)
+        comp = {"E": [], "H": [], "psi_E": [], "psi_H": [], "dispersive_P_curr": [], "dispersive_P_prev": []}
+        comp1 = {k: [] for k in comp}
+        unknown = []
+        for (key, l0), (_, l1) in zip(field_leaves(arr), field_leaves(r)):
+            attr = key.split("#")[0]
+            if attr in comp:
+                comp[attr].append(l0)
+                comp1[attr].append(l1)
+            else:
+                unknown.append(attr)
+        v0 = [_flat(comp[k]) for k in comp]
+        line = "resetfs " + " ".join(str(len(x)) for x in v0) + " " + " ".join(f2h(v) for x in v0 for v in x)
+        rep = ctx.driver.ask_many([line])[0]
+        impl = " | ".join(" ".join(canon_bits(_flat(comp1[k]))) for k in comp) + " | 1"
+        ctx.expect_equal("reset-fieldstate-components", case, impl if not unknown else f"unmodelled FieldState leaves {unknown}", rep)
         ctx.impl_property_evals += 1
         d = reset_fails(j, arr, bool(rd), bool(rr))
         if d:
             ctx.violation(case, d)
+
+
+DISPERSIONS = [{"kind": "lorentz", "w0": 2e15, "gamma": 1e13, "deps": 1.5}, {"kind": "drude", "wp": 2e15, "gamma": 1e14},
+               {"kind": "lorentz", "w0": 4e15, "gamma": 5e13, "deps": 0.8}]
+
+
+def make_dispersive(rng, sc, pml):
+    """give the scene a dispersive block around the source (and PML walls): polarisation history becomes part of the state"""
+    sc["disp"] = rng.choice(DISPERSIONS)
+    sc["blk_shape"] = [3, 3, 3]
+    sc["shape"] = [max(5, x) for x in sc["shape"]]
+    sc["sigma_e"] = sc["sigma_m"] = None
+    if pml:
+        sc["bound"] = "pml"
+    return sc
 
 
 def run(ctx):
@@ -564,10 +609,16 @@ def run(ctx):
             sc["dets"] = sc["dets"][:2]
         # an accumulating detector: its record after a rerun depends on what reset left in the state
         sc["dets"] = sc["dets"][:2] + [{"kind": "phasor", "switch": base.gen_switch(ctx.rng, sc["T"]), "reduce": ctx.rng.chance(0.5)}]
+        if i == 0:
+            # always: a dispersive (ADE) block inside PML walls, so that the FieldState carries every kind of dynamic leaf
+            # (E, H, psi_E, psi_H, dispersive_P_curr, dispersive_P_prev) in the split / reuse / flag histories
+            make_dispersive(ctx.rng, sc, pml=True)
+        elif i % 3 == 2:
+            make_dispersive(ctx.rng, sc, pml=False)
         k_scene(ctx, sc, i)
     k_rerun(ctx)
     # reset: one scene without and one with a recording state (reversible gradient config + PML)
-    sc0 = base.gen_scene(ctx.rng.fork(), 8, 0)
+    sc0 = make_dispersive(ctx.rng, base.gen_scene(ctx.rng.fork(), 8, 0), pml=True)
     k_reset(ctx, sc0, {"method": "none"}, 0)
     sc1 = dict(base.gen_scene(ctx.rng.fork(), 6, 2), dets=[{"kind": "field", "switch": None}])
     k_reset(ctx, sc1, {"method": "reversible", "c": 0}, 1)
@@ -582,10 +633,11 @@ def search(ctx, hints):
             if d:
                 ctx.violation(h, d)
                 return
-    for lossy in ({"sigma_m": 1e9}, {"sigma_e": 1e5}, {}):
+    for lossy in ({"disp": DISPERSIONS[0], "blk_shape": [3, 3, 3], "bound": "pml", "shape": [5, 5, 5]}, {"sigma_m": 1e9},
+                  {"sigma_e": 1e5}, {}):
         sc = {"shape": [3, 3, 4], "T": 4, "bound": "periodic", "src": "dipole", "pol": 2, "src_switch": None,
               "dets": [{"kind": "field", "switch": None}, {"kind": "phasor", "switch": None}], "spp": 4.0, "eps": None, **lossy}
-        for g in GRADS:
+        for g in (GRADS[1:] if "disp" in lossy else GRADS):
             for mode in ("run", "cf", "split"):
                 case = {"kind": "rerun", "scene": sc, "grad": g, "mode": mode}
                 ctx.impl_property_evals += 1
